@@ -83,6 +83,17 @@ CLAIMED = {
              "characters; in-memory disk",
         ref="DESIGN.md section 5 C03",
     ),
+    "C17": dict(
+        text="Hostile-token conditions, macro values, initial definitions and include/use names (<=2/3 tokens: import expressions, "
+             "attribute access, calls, full-width identifiers, lambda, open(), exec/eval) in 6 document templates, through "
+             "preprocess_file/parse and through the real server, with monitors on eval/exec/compile/__import__/open(write)/os.*/"
+             "subprocess.*/shutil.*: no monitor fires, and any text reaching eval/compile must be in the safe expression language "
+             "(z3 regular-language membership). Plus an AST inventory of every executing/writing call site in the package, "
+             "regenerated from /repo each run, against the list of intended side effects.",
+        note="token index forked by the solver, documents then indexed concretely (bounded enumeration); monitors are Python-level "
+             "(C extensions trusted); auto-update and debug log off; the inventory is a syntactic scan",
+        ref="DESIGN.md section 5 C17", rx=True,
+    ),
 }
 
 NOT_APPLICABLE = {
